@@ -60,6 +60,7 @@ partial def TVal.dec : Sexp → Option (TVal α)
 partial def TVal.enc : TVal α → Sexp
   | .scalar p => p.enc
   | .arr _ vs => app "arr" (vs.map TVal.enc)
+  | .tuple vs => app "tuple" (vs.map TVal.enc)
 partial def TE.dec : Sexp → Option (TE α)
   | .list [.atom "lit", v] => (TVal.dec v).map .lit
   | .list [.atom "var", .str n] => some (.var n)
